@@ -102,10 +102,12 @@ def run(ctx: Ctx):
     n = 10 if ctx.tier == "quick" else 150
     ctx.translate("gen_layout")
     ctx.translate("gen_cppgen")
+    ctx.translate("gen_named")
     ctx.prove("Props/C13.v")
     ctx.make(["Model/Named.vo", "Model/CppExec.vo"])
     ctx.trusted += [
         "Model/Named.v: hand model of common.named_vector / named_covariance (constructor by keyword, from_data, from_dict), tied by correspondence on valid / unknown-keyword / wrong-shape cases",
+        "translator gen_named.py: the __subclasshook__ of the generated classes (common.py) as a conjunction of name / arglist / shape comparisons, and the isinstance guards of Model.model, SensorModel.model, process_model, sensor_model (python.py); Python's rule that isinstance on an abc.ABC consults __subclasshook__ is trusted",
         "renaming and declaration-order invariance: theorems about evaluation and name sorting (any renaming / permutation); the implementations are exercised on renamed twins and re-declared copies (Python and compiled C++), compared by name",
     ]
     # ---------------- named containers: model vs implementation (sequences of constructions on one class)
